@@ -1207,6 +1207,6 @@ META = dict(
         "Reader/writer table agreement (A1) for the .osu codec: the 30-key metadata table, the slot coordinates of "
         "the hit/hold/timing-point/SV/sample line codecs tokenised from the writers' f-strings against the indices "
         "the readers use, the line classifiers against the separators and flag literals the writers emit, the "
-        "section markers and slice bounds, and list coverage.  Each rule instance holds for every input at once."),
+        "section markers and slice bounds, and list coverage.  Each rule instance holds for every input at once. The line classifiers consult the separator counts and the flag slot only (R5); an optional trailing field is read under a length test with the right bound, and no time slot is a sum of separately truncated terms (R3)."),
     not_decided="the <1 ms int() bound as a number, float text round-trip beyond 15 significant digits, storyboard / colour sections the model has no field for",
 )
